@@ -4,8 +4,11 @@ package checks
 
 import (
 	"fmt"
+	"net"
+	"sort"
 
 	"github.com/contiv/libOpenflow/common"
+	of "github.com/contiv/libOpenflow/openflow13"
 	"github.com/contiv/libOpenflow/util"
 
 	"verif/bind"
@@ -135,12 +138,171 @@ func c01Hello(r *ev.Run, ret *retained) int64 {
 	return n
 }
 
+// c01OddAddresses: address-typed arguments (net.IP, net.HardwareAddr) whose Go type admits lengths the
+// wire field has no room for - an IPv6 or nil address handed to an IPv4 field, an IPv4 address in its
+// 16-byte form, a 4-byte address handed to an IPv6 field, EUI-64 / InfiniBand / nil hardware addresses.
+// What the field then carries is not the subject here (the constructors are untyped about it); the
+// message must still be framed exactly. Each odd field sits alone and in second position of the
+// match of a flow-mod (followed by an instruction), a flow-stats and an aggregate-stats request, and
+// as the hardware address of a port-mod.
+func c01OddAddresses(r *ev.Run, ret *retained) int64 {
+	var n int64
+	ips := map[string]net.IP{
+		"nil": nil, "empty": net.IP{}, "v4": net.IP{10, 1, 2, 3}, "v4in16": net.IPv4(10, 1, 2, 3), "v6": net.ParseIP("2001:db8::1"),
+		"v4mapped-prefix-only": net.IP{0, 0, 0, 0, 0, 0, 0, 0, 0, 0, 0xff, 0xff, 0, 0, 0, 0}, "3bytes": net.IP{1, 2, 3}, "20bytes": net.IP(make([]byte, 20)),
+	}
+	macs := map[string]net.HardwareAddr{
+		"nil": nil, "mac": {1, 2, 3, 4, 5, 6}, "4bytes": {1, 2, 3, 4}, "eui64": {1, 2, 3, 4, 5, 6, 7, 8}, "ipoib": net.HardwareAddr(make([]byte, 20)),
+	}
+	var ipNames, macNames []string
+	for k := range ips {
+		ipNames = append(ipNames, k)
+	}
+	for k := range macs {
+		macNames = append(macNames, k)
+	}
+	sort.Strings(ipNames)
+	sort.Strings(macNames)
+	type mk struct {
+		name string
+		f    func() *of.MatchField
+	}
+	var fields []mk
+	for _, vn := range ipNames {
+		v := ips[vn]
+		for _, mn := range ipNames {
+			var mp *net.IP
+			if mn != "empty" { // "empty" stands for: no mask
+				m := ips[mn]
+				mp = &m
+			}
+			vn, mn, v, mp := vn, mn, v, mp
+			lbl := func(c string) string { return fmt.Sprintf("%s(value %s, mask %s)", c, vn, map[bool]string{true: "none", false: mn}[mp == nil]) }
+			fields = append(fields,
+				mk{lbl("NewIpv4SrcField"), func() *of.MatchField { return of.NewIpv4SrcField(v, mp) }},
+				mk{lbl("NewIpv4DstField"), func() *of.MatchField { return of.NewIpv4DstField(v, mp) }},
+				mk{lbl("NewIpv6SrcField"), func() *of.MatchField { return of.NewIpv6SrcField(v, mp) }},
+				mk{lbl("NewIpv6DstField"), func() *of.MatchField { return of.NewIpv6DstField(v, mp) }},
+				mk{lbl("NewTunnelIpv4SrcField"), func() *of.MatchField { return of.NewTunnelIpv4SrcField(v, mp) }},
+				mk{lbl("NewTunnelIpv4DstField"), func() *of.MatchField { return of.NewTunnelIpv4DstField(v, mp) }})
+			if mp != nil {
+				m := *mp
+				fields = append(fields,
+					mk{lbl("NewNxARPSpaMatchField"), func() *of.MatchField { return of.NewNxARPSpaMatchField(v, m) }},
+					mk{lbl("NewNxARPTpaMatchField"), func() *of.MatchField { return of.NewNxARPTpaMatchField(v, m) }})
+			}
+		}
+		vn, v := vn, v
+		fields = append(fields,
+			mk{"NewArpSpaField(" + vn + ")", func() *of.MatchField { return of.NewArpSpaField(v) }},
+			mk{"NewArpTpaField(" + vn + ")", func() *of.MatchField { return of.NewArpTpaField(v) }})
+	}
+	for _, vn := range macNames {
+		v := macs[vn]
+		for _, mn := range macNames {
+			var mp *net.HardwareAddr
+			if mn != "nil" {
+				m := macs[mn]
+				mp = &m
+			}
+			vn, mn, v, mp := vn, mn, v, mp
+			lbl := func(c string) string { return fmt.Sprintf("%s(value %s, mask %s)", c, vn, mn) }
+			fields = append(fields,
+				mk{lbl("NewEthDstField"), func() *of.MatchField { return of.NewEthDstField(v, mp) }},
+				mk{lbl("NewEthSrcField"), func() *of.MatchField { return of.NewEthSrcField(v, mp) }})
+			if mp != nil {
+				m := *mp
+				fields = append(fields,
+					mk{lbl("NewNxARPShaMatchField"), func() *of.MatchField { return of.NewNxARPShaMatchField(v, m) }},
+					mk{lbl("NewNxARPThaMatchField"), func() *of.MatchField { return of.NewNxARPThaMatchField(v, m) }})
+			}
+		}
+		vn, v := vn, v
+		fields = append(fields,
+			mk{"NewArpShaField(" + vn + ")", func() *of.MatchField { return of.NewArpShaField(v) }},
+			mk{"NewArpThaField(" + vn + ")", func() *of.MatchField { return of.NewArpThaField(v) }})
+	}
+	one := func(label, kind string, build func() util.Message) {
+		n++
+		rep := map[string]any{"odd_address_case": label}
+		var m util.Message
+		func() {
+			defer func() {
+				if p := recover(); p != nil {
+					r.Violation("build-panic:"+kind, fmt.Sprintf("building %s panicked: %v", label, p), rep)
+				}
+			}()
+			m = build()
+		}()
+		if m == nil {
+			return
+		}
+		c01Message(r, m, kind, func(clause, what string) {
+			r.Violation(clause+":odd-address:"+kind, what+" for "+label, rep)
+		}, ret, label)
+	}
+	for _, f := range fields {
+		f := f
+		for _, second := range []bool{false, true} {
+			second := second
+			match := func(add func(of.MatchField)) {
+				if second {
+					add(*of.NewEthTypeField(0x0800))
+				}
+				if mf := f.f(); mf != nil {
+					add(*mf)
+				}
+			}
+			pos := map[bool]string{false: "alone", true: "second"}[second]
+			one("flow-mod with "+f.name+" "+pos+" in the match, then goto-table", "flow_mod", func() util.Message {
+				fm := of.NewFlowMod()
+				match(fm.Match.AddField)
+				fm.AddInstruction(of.NewInstrGotoTable(3))
+				return fm
+			})
+			one("flow-stats request with "+f.name+" "+pos+" in the match", "multipart_request", func() util.Message {
+				req := &of.MultipartRequest{Header: of.NewOfp13Header(), Type: of.MultipartType_Flow}
+				req.Header.Type = of.Type_MultiPartRequest
+				fs := of.NewFlowStatsRequest()
+				match(fs.Match.AddField)
+				req.Body = fs
+				return req
+			})
+			one("aggregate-stats request with "+f.name+" "+pos+" in the match", "multipart_request", func() util.Message {
+				req := &of.MultipartRequest{Header: of.NewOfp13Header(), Type: of.MultipartType_Aggregate}
+				req.Header.Type = of.Type_MultiPartRequest
+				as := of.NewAggregateStatsRequest()
+				match(as.Match.AddField)
+				req.Body = as
+				return req
+			})
+		}
+		one("set-field action carrying "+f.name+" in a packet-out", "packet_out", func() util.Message {
+			po := of.NewPacketOut()
+			if mf := f.f(); mf != nil {
+				po.AddAction(of.NewActionSetField(*mf))
+			}
+			return po
+		})
+	}
+	for _, vn := range macNames {
+		v := macs[vn]
+		one("port-mod with hardware address "+vn, "port_mod", func() util.Message {
+			pm := of.NewPortMod(7)
+			pm.HWAddr = v
+			return pm
+		})
+	}
+	return n
+}
+
 func c01(r *ev.Run, replay string) {
 	ret := &retained{}
 	if replay != "" {
 		var c shapeCase
 		if err := ev.LoadReplay(replay, &c); err != nil || c.Tree == nil {
 			c01Hello(r, ret)
+			c01OddAddresses(r, ret)
 			r.Set("states", 1)
 			return
 		}
@@ -151,6 +313,11 @@ func c01(r *ev.Run, replay string) {
 	shapes := forEachControllerShape(r, func(n *wire.N, h bind.Hist) { c01Check(r, n, h, ret) })
 	shapes += c01Hello(r, ret)
 	r.Completed("hello with 0..3 elements x 1..2 bitmaps set through the exported fields")
+	odd := c01OddAddresses(r, ret)
+	shapes += odd
+	r.Add("histories", odd)
+	r.Set("odd_address_cases", odd)
+	r.Completed("address arguments of every length the Go types admit (nil, 3, 4, 16, 20-byte IPs; nil, 4, 6, 8, 20-byte hardware addresses) as value and mask of every address-typed match-field constructor, in flow-mod / flow-stats / aggregate-stats matches, set-field actions and port-mod")
 	r.Set("states", shapes)
 	r.Set("traces_validated_against_impl", r.Counter("histories"))
 	r.Set("evaluations", r.Counter("histories"))
